@@ -133,6 +133,16 @@ package ch
 //@   invariant -1 <= rangeindex && rangeindex < len(list) - 1
 //@   invariant len(e.Next) == rangeindex + 1 && forall j in 0..len(e.Next) :: e.Next[j].Code == list[1 + j].Code [C03]
 
+//@ -- matching a server exception against candidate codes: true exactly when the exception's own
+//@ -- code is one of them (any-of; a nil exception or an empty list matches nothing)
+//@ contract (e *Exception) IsCode(codes) (r) props(C03)
+//@   ensures r ==> e != nil && exists k in 0..len(codes) :: codes[k] == e.Code {a-match-names-a-listed-code}
+//@   ensures e != nil && !r ==> forall k in 0..len(codes) :: codes[k] != e.Code {no-listed-code-is-missed}
+//@   ensures e == nil ==> !r {nil-matches-nothing}
+//@ loop 0 (rangeindex)
+//@   invariant -1 <= rangeindex && rangeindex < len(codes)
+//@   invariant forall k in 0..rangeindex + 1 :: codes[k] != e.Code
+
 //@ -- the addendum may only be written when the NEGOTIATED revision has it
 //@ contract (c *Client) encodeAddendum() props(C13)
 //@   requires c != nil && c.protocolVersion >= 54458
@@ -210,6 +220,21 @@ package ch
 //@   modifies all(c.writer), all(input), all(ctx), all(c.compressor)
 //@   ensures wRI(c.writer) {writer-invariant-kept}
 //@   ensures c.compression != 0 ==> len(c.writer.vec) == old(len(c.writer.vec)) [C09] {a-compressed-block-is-copied-into-the-staging-buffer-never-chained-by-reference}
+//@ -- the path is chosen by the negotiated compression alone (an empty terminator block included):
+//@ -- the vectored raw path only without compression, the encode-and-compress closure otherwise
+//@   ensures [internal] err == nil && c.compression == 0 ==> calls("(Block).WriteBlock") == 1 [C02,C09] {raw-block-written-when-compression-is-off}
+//@   ensures [internal] c.compression != 0 ==> calls("(*Writer).ChainBuffer") == 2 && calls("(Block).WriteBlock") == 0 [C02,C09] {every-block-goes-through-the-compressing-path-when-compression-is-on}
+//@ callsite (Block).WriteBlock
+//@   assert c.compression == 0 [C02,C09] {vectored-raw-path-only-without-compression}
+
+//@ -- the encode-and-compress closure: with compression enabled every successfully encoded block
+//@ -- (whatever its size) is handed to the compressor exactly once
+//@ contract (c *Client) encodeBlock$2(buf) props(C02,C09)
+//@   requires *c != nil && buf != nil && c.compressor != nil
+//@   modifies buf.Buf, all(c.compressor), all(*input), *rerr
+//@   ensures len(buf.Buf) >= old(len(buf.Buf)) && cap(buf.Buf) >= len(buf.Buf) {staged-bytes-only-grow}
+//@   ensures [internal] *rerr == nil && c.compression == 1 ==> calls("(*Writer).Compress") == 1 [C02,C09] {an-encoded-block-is-compressed-exactly-once}
+//@   ensures [internal] c.compression != 1 ==> calls("(*Writer).Compress") == 0 [C02,C09] {no-frame-unless-compression-is-enabled}
 
 //@ contract (c *Client) encodeBlankBlock(ctx) (err) props(C02,C09)
 //@   requires c != nil && ctx != nil && c.writer != nil && wRI(c.writer)
@@ -325,6 +350,15 @@ package ch
 //@   assert p == 3 [C03] {progress-callback-only-for-a-progress-packet}
 //@ callsite value:f#2
 //@   assert p == 6 [C03] {profile-callback-only-for-a-profile-packet}
+
+//@ -- profile events: whenever either callback is set the events are extracted from the decoded
+//@ -- block, and the batch callback, when set, receives them exactly once per packet
+//@ contract (c *Client) handlePacket$1(ctx, b) (err) props(C03)
+//@   requires *c != nil && c.lg != nil && ctx != nil
+//@   modifies all(data), all(q), all(ctx)
+//@   ensures [internal] err == nil && (old(q.OnProfileEvents) != nil || old(q.OnProfileEvent) != nil) ==> calls("(*ProfileEvents).All") == 1 {events-extracted-whenever-a-handler-is-set}
+//@   ensures [internal] err == nil && old(q.OnProfileEvents) != nil ==> calls("value:f#1") == 1 {batch-callback-exactly-once-per-packet}
+//@   ensures [internal] old(q.OnProfileEvents) == nil ==> calls("value:f#1") == 0 {no-batch-callback-unless-set}
 
 //@ -- the receive loop of Do: nil is returned only on end-of-stream; data and totals packets go to
 //@ -- decodeBlock, everything else except end-of-stream to handlePacket
